@@ -337,6 +337,9 @@ fn gen_main(args: &[String]) {
                 let d = json!({"x": v});
                 log_cases.push(Case { work: Work::Apply { rule: corpus::norm(&corpus::op("log", vec![corpus::var("x")])), data: corpus::norm(&d) }, tag: "log".into() });
                 log_cases.push(Case { work: Work::Apply { rule: corpus::norm(&json!({"cat": [{"log": "a"}, {"log": {"var": "x"}}, {"if": [false, {"log": "never"}, {"log": "b"}]}]})), data: corpus::norm(&d) }, tag: "log-seq".into() });
+                // a line is written when its log is evaluated, whatever happens to the rule afterwards
+                log_cases.push(Case { work: Work::Apply { rule: corpus::norm(&json!({"+": [{"log": {"var": "x"}}, "not a number"]})), data: corpus::norm(&d) }, tag: "log-then-error".into() });
+                log_cases.push(Case { work: Work::Apply { rule: corpus::norm(&json!({"if": [{"log": 1}, {"in": [{"log": "second"}, 2]}, 3]})), data: corpus::norm(&d) }, tag: "log-then-error".into() });
             }
             for _ in 0..(count / 8).max(100) {
                 let dd = 1 + rng.below(3);
